@@ -62,6 +62,7 @@ class SimSocket(object):
         self.refused_reported = False
         self.write_blocked_until = 0.0
         self.owner = None       # "node" | "peer"
+        self.group = None       # group of the creating thread (bystander separation)
         self.closed_at = None
         self.inflight = 0
         net.sockets.append(self)
@@ -379,6 +380,7 @@ class Net(object):
             net.sim.sync_point("sock.new")
             s = SimSocket(net, family, type_, proto)
             s.owner = "node"
+            s.group = getattr(net.sim.cur, "group", None)
             return s
         return types.SimpleNamespace(socket=socket_, AF_INET=real.AF_INET,
                                      SOCK_STREAM=real.SOCK_STREAM,
